@@ -83,6 +83,25 @@ func classifyCrash(out string, exit int) string {
 		if j := strings.IndexByte(line, '\n'); j >= 0 {
 			line = line[:j]
 		}
+		if strings.Contains(line, "logrus.Entry") {
+			// log.Panicf: the panic value is a pointer; key by the first frame outside the logging packages
+			for _, fl := range strings.Split(out[i:], "\n") {
+				if !strings.Contains(fl, "(") || strings.HasPrefix(fl, "\t") || strings.HasPrefix(fl, "panic") || strings.HasPrefix(fl, "goroutine") {
+					continue
+				}
+				if strings.Contains(fl, "logrus") || strings.Contains(fl, "common/log.") || strings.HasPrefix(fl, "runtime") {
+					continue
+				}
+				if k := strings.LastIndex(fl, "("); k > 0 {
+					fn := fl[:k]
+					if m := strings.LastIndex(fn, "/"); m >= 0 {
+						fn = fn[m+1:]
+					}
+					return "crash.panic.log-panic." + sanitizeKey(fn)
+				}
+			}
+			return "crash.panic.log-panic"
+		}
 		return "crash.panic." + sanitizeKey(strings.TrimPrefix(line, "panic:"))
 	}
 	return fmt.Sprintf("crash.exit%d", exit)
